@@ -138,7 +138,7 @@ def finish(run: Run, level: str, explanation: str, assumptions: list[str], check
     for k in stale:
         run.notes.append(f"known finding no longer reported (fixed or moved?): {k}")
 
-    ev_dir = os.path.join(VERIF, "evidence")
+    ev_dir = os.environ.get("VERIF_EVIDENCE_DIR") or os.path.join(VERIF, "evidence")
     os.makedirs(ev_dir, exist_ok=True)
     obligations = sum(s["obligations"] for s in run.rule_stats.values())
     discharged = sum(s["discharged"] for s in run.rule_stats.values())
